@@ -136,13 +136,13 @@ def module_work(name, mod, tier, rng, viols, cells, counters, samples, probe, ca
     evals = 0
     gens = generators(mod)
     corpus = []
-    for v in C.corpus(name, limit=60 if tier == 'quick' else 400, rng=rng):
+    for v in C.corpus(name, limit=60 if tier == 'quick' else 1500, rng=rng):
         o = C.outcome(mod.validate, v)
         if o[0] == 'ok' and isinstance(o[1], str) and o[1] not in corpus:
             corpus.append(o[1])
     if not corpus:
         return 0
-    synth = C.synth_valid(name, 30 if tier == 'quick' else 300, rng, base=corpus)
+    synth = C.synth_valid(name, 30 if tier == 'quick' else 1200, rng, base=corpus)
     # M0: which generator does validate() consult
     for gname, g in gens.items():
         probe.watch(_full.get((name, gname.split('[')[0]), g), (name, gname.split('[')[0]))
@@ -221,7 +221,7 @@ def module_work(name, mod, tier, rng, viols, cells, counters, samples, probe, ca
             if len(samples) < 2:
                 samples.append({'module': name, 'generator': gname, 'length': L, 'rule': list(rule), 'agreeing_documented_numbers': hits})
             # M2: alternatives at the check positions
-            pool = vs[:6] + [s for s in synth if len(s) == L][:6 if tier == 'quick' else 60]
+            pool = vs[:6] + [s for s in synth if len(s) == L][:6 if tier == 'quick' else 300]
             for v in pool:
                 for p in range(i, i + k):
                     for c in sorted(checkalpha):
@@ -247,9 +247,9 @@ def module_work(name, mod, tier, rng, viols, cells, counters, samples, probe, ca
         checkpos = set()
         for _gn, _g, (kind, i, k) in rules:
             checkpos.update(range(i, i + k))
-        pool = [v for v in corpus if len(v) == L][:6] + [s for s in synth if len(s) == L][:6 if tier == 'quick' else 60]
+        pool = [v for v in corpus if len(v) == L][:6] + [s for s in synth if len(s) == L][:6 if tier == 'quick' else 300]
         for v in pool:
-            for _ in range(6 if tier == 'quick' else 40):
+            for _ in range(6 if tier == 'quick' else 60):
                 s = list(v)
                 idx = [q for q in range(L) if q not in checkpos and s[q].isdigit()]
                 if not idx:
